@@ -68,6 +68,8 @@ type runner struct {
 	abci   bool
 	// next execute() lets the batch time out instead of executing it
 	timeoutNext bool
+	drain       bool   // the amount just generated (nearly) empties the sender
+	lastID      uint64 // id of the transfer accepted by the last send (0: rejected)
 }
 
 // syncHeight: in ABCI mode an operation executes in the next block. Blocks whose end-blocker
@@ -415,6 +417,7 @@ func (x *runner) send(u int, t *token, a *big.Int) {
 	}
 	// follow the real outcome
 	x.m.applySend(u, t.idx, a, x.h, verdict{Tax: new(big.Int).Sub(cost, a), Total: cost}, id)
+	x.lastID = id
 }
 
 func firstLine(s string) string {
